@@ -102,7 +102,13 @@ def restore(obj, snap):
         fresh = N.denorm(snap)
         obj.regex, obj.missed_cleavages = fresh.regex, fresh.missed_cleavages
         obj.semi_enzymatic, obj.complete_digestion = fresh.semi_enzymatic, fresh.complete_digestion
-    elif isinstance(obj, str):
+    elif isinstance(obj, pt.Mod):
+        fresh = N.denorm(snap)
+        obj.val, obj.mult = fresh.val, fresh.mult
+    elif isinstance(obj, pt.Interval):
+        fresh = N.denorm(snap)
+        obj.start, obj.end, obj.ambiguous, obj.mods = fresh.start, fresh.end, fresh.ambiguous, fresh.mods
+    elif isinstance(obj, (str, tuple)):
         pass
     else:
         raise HarnessError(f"cannot restore {type(obj)}")
